@@ -976,9 +976,10 @@ func (t *trzszTransfer) sendFiles(sourceFiles []*sourceFile, progress progressCa
 			continue
 		}
 
-		defer file.Close()
-
+		// close each file as soon as it has been sent (not deferred to the end of the
+		// whole transfer), so that the open files do not grow with the number of files
 		if err := t.sendFileSize(file.getSize(), progress); err != nil {
+			file.Close()
 			return nil, err
 		}
 
@@ -988,6 +989,7 @@ func (t *trzszTransfer) sendFiles(sourceFiles []*sourceFile, progress progressCa
 		} else {
 			digest, err = t.sendFileData(file, progress)
 		}
+		file.Close()
 		if err != nil {
 			return nil, err
 		}
